@@ -1152,7 +1152,10 @@ impl MutableArchive {
 
         // Add new filename if not already present
         let filename_line = filename.to_string();
-        if !current_content.contains(&filename_line) {
+        if !current_content
+            .lines()
+            .any(|line| line.trim() == filename_line)
+        {
             if !current_content.ends_with('\n') && !current_content.is_empty() {
                 current_content.push('\n');
             }
